@@ -14,11 +14,15 @@ use crate::Tier;
 const P: &str = "C17";
 
 pub fn gen_unknown(rng: &mut Rng, n_events_hint: usize, max_codes: u64) -> Vec<UnknownEv> {
-    let ncodes = 1 + rng.below(max_codes) as usize;
+    // occasionally a table with very many entries (the table's size byte allows 84)
+    let many_codes = max_codes >= 6 && rng.chance(1, 40);
+    let ncodes = if many_codes { 20 + rng.usize_below(50) } else { 1 + rng.below(max_codes) as usize };
+    // codes that sit next to the known ones, or that collide with the UBJSON markers which follow the raw element
+    const SPECIAL: [u8; 12] = [0x55, 0x7D, 0x7B, 0x34, 0x3E, 0x3F, 0x11, 0x0F, 0x00, 0xFF, 0x5B, 0x53];
     let mut v: Vec<UnknownEv> = vec![];
     for _ in 0..ncodes {
         let code = loop {
-            let c = rng.below(256) as u8;
+            let c = if rng.chance(1, 3) { *rng.pick(&SPECIAL) } else { rng.below(256) as u8 };
             if !L::KNOWN_CODES.contains(&c) && !v.iter().any(|u: &UnknownEv| u.code == c) {
                 break c;
             }
@@ -29,7 +33,16 @@ pub fn gen_unknown(rng: &mut Rng, n_events_hint: usize, max_codes: u64) -> Vec<U
             2 => 1 + rng.below(600) as u16,
             _ => *rng.pick(&[4u16, 58, 63, 516, 517]),
         };
-        let ninst = if rng.chance(1, 5) { 0 } else { 1 + rng.below(6) as usize };
+        let ninst = if many_codes {
+            rng.below(3) as usize
+        } else if rng.chance(1, 5) {
+            0
+        } else if rng.chance(1, 30) {
+            // a flood of them (more than any fixed-size counter or buffer would expect)
+            50 + rng.below(250) as usize
+        } else {
+            1 + rng.below(6) as usize
+        };
         let after: Vec<u32> = (0..ninst).map(|_| rng.below(n_events_hint.max(1) as u64 + 2) as u32).collect();
         v.push(UnknownEv { code, size, after, pseed: rng.next_u64() });
     }
